@@ -213,6 +213,17 @@ def r17_3(ctx, R):
                     lb = ctx.facts.bodies.get("%s::<%s>::len" % (m.group(1), "F"))
                     lenb = [x for x in ctx.facts.fn_bodies() if x.path.startswith(m.group(1) + "::<") and x.path.endswith(">::len")]
                     ok = bool(lenb) and ctx.flow(lenb[0]).local_expr(0)[0] == "proj" and ctx.flow(lenb[0]).local_expr(0)[2][-1] == lo[2][-1]
+                    if not ok:
+                        # ... or the collection's remaining-counter itself (the field its poll_next decrements by one when it
+                        # yields; kept equal to the number of held futures by the +1/-1 discipline of C15 R15.x)
+                        from lib_flow import self_field_stores, is_inc_of
+                        from c01 import group_loop_fns
+                        for gb in group_loop_fns(ctx):
+                            if not gb.path.startswith("<" + m.group(1)):
+                                continue
+                            for (bb_, i_, fld, val, root, pe) in self_field_stores(gb, ctx.flow(gb)):
+                                if is_inc_of(val, fld) == -1 and fld == lo[2][-1]:
+                                    ok = True
         ctx.ob("R17.3", b, "(len, Some(len))", ok, d_loc(b), det)
     ctx.floor("R17.3", "collection-size_hints", n, 4)
     for b in ctx.facts.fn_bodies():
